@@ -283,10 +283,77 @@ def stalled_fault_cases(chk):
     return n
 
 
+def requeue_window_cases(chk):
+    """A message with retries left meets a write error; while the client tears the dead connection down, a connection
+    subscriber (told connected=False) submits ten more messages.  The failed message is held for its retry, so the
+    tenth of them is the eleventh: it is refused, and ten messages go out on the next connection - whether the failure
+    shows at the first, second or third chunk of the frame, and with 0..2 messages already held behind it."""
+    n = 0
+    for gen in (4, 5):
+        for chunk in (0, 1, 2):
+            for behind in (0, 1, 2):
+                w = Scenario({"gen": gen, "open": True})
+                w.loop.settle()
+                w.net.resolve(True)
+                w.loop.settle()
+                burst = []
+
+                async def on_conn(*, connected, w=w, burst=burst):
+                    if not connected and not burst:
+                        for i in range(10):
+                            burst.append(w.submit(w.fam(100 + i), "I"))
+                on_conn.__qualname__ = "c16.on_conn"
+                w.sock.subscribe_on_connection_changed(on_conn)
+                t = w.net.live()[-1]
+                if behind:
+                    # variant: the stream is stalled, the first writer parks in drain(), further messages queue up
+                    # behind it, then the peer resets the connection (the read loop usually notices first)
+                    t.pause()
+                    w.loop.settle()
+                    first = w.submit(w.fam(0), "I")
+                    w.loop.settle()
+                    held = [w.submit(w.fam(1 + i), "I") for i in range(behind)]
+                    w.loop.settle()
+                    t.peer_reset()
+                else:
+                    # a half-open link: the write itself fails (at the given chunk of the frame), so the writer
+                    # is the one that learns of the failure first
+                    t.fail_after = chunk
+                    first = w.submit(w.fam(0), "I")
+                w.loop.settle()
+                w.net.auto = "accept"
+                w.net.resolve_all(True)
+                w.loop.run_until(w.loop.time() + 10.0)
+                n += 1
+                chk.counters["executions"] += 1
+                statuses = [c["status"] for c in w.calls]
+                accepted = [c for c in w.calls if c["status"] == "returned"]
+                frames, _p = w.wire()
+                pairs, _u = sc.match_frames(w, frames)
+                last = max((f["cid"] for f, c in pairs), default=-1)
+                on_last = {c["idx"] for f, c in pairs if f["cid"] == last}
+                label = f"at{gen}: write error with {behind} message(s) queued behind, fault armed at chunk {chunk}, ten sends from the disconnected notification"
+                msg = None
+                if len(on_last) > CAPACITY:
+                    msg = f"{len(on_last)} messages were held for the down link and transmitted on the next connection (statuses {statuses})"
+                elif len(accepted) - (0 if first["idx"] in on_last or True else 0) > CAPACITY + 0 and False:
+                    pass
+                if not msg and len(w.calls) == 1 + behind + 10:
+                    expect_overflow = max(0, 1 + behind + 10 - CAPACITY)
+                    got_overflow = sum(1 for s_ in statuses if s_ == "overflow")
+                    if got_overflow != expect_overflow:
+                        msg = f"{got_overflow} sends refused with the overflow error, the reference model refuses {expect_overflow} (statuses {statuses})"
+                if msg:
+                    chk.violation(f"at{gen}:requeue-window", f"{label}: {msg}",
+                                  {"kind": "input", "module": "pvmc.props.c16", "gen": gen, "when": f"requeue-{chunk}-{behind}"})
+    return n
+
+
 def replay_input(rp):
     c = runner.Check("C16", "quick", 0, "model_checking")
     not_open_cases(c)
     stalled_fault_cases(c)
+    requeue_window_cases(c)
     for s, r in c.violations.items():
         return r["message"]
     return None
@@ -319,4 +386,5 @@ def run(tier, seed, part=None):
     chk.add_audit(SPEC, {"gen": 4, "max_send": 5, "max_adv": 2, "pattern": "BBBBB"}, 6, 0, limit=4000 if tier == "thorough" else 600)
     chk.cov["not_open_cases"] = not_open_cases(chk)
     chk.cov["stalled_fault_cases"] = stalled_fault_cases(chk)
+    chk.cov["requeue_window_cases"] = requeue_window_cases(chk)
     return chk.finish()
